@@ -23,6 +23,13 @@
 (*          expiry in effect -- the configured value if it is positive,    *)
 (*          the default (DefE / DefNF) otherwise                           *)
 (*                                                                         *)
+(* A write through Exec may carry a complete read `pre` that runs INSIDE the  *)
+(* write's statement callback before the statement itself (the database     *)
+(* still has the old row): the smallest overlap of a read with a write that  *)
+(* needs no racing.  The read is judged against the database as it is then;  *)
+(* because the removal of the named keys follows the statement, whatever the  *)
+(* read stored is gone when the write returns (CacheTruth, Coherent).        *)
+(*                                                                         *)
 (* Writes (Exec, DelCache) carry the caller's context `cx`: the background  *)
 (* context, one that is cancelled as soon as the call has returned, or one  *)
 (* whose deadline passes before the first background retry.  The context    *)
@@ -52,6 +59,8 @@ CONSTANTS Ids,       \* primary ids (positive integers)
           DefE,      \* expiry in effect when none (or a non-positive one) is configured (s)
           DefNF,     \* same for the not-found placeholder (s)
           Ctxs,      \* subset of {"bg", "cancel", "deadline"}: caller contexts offered to writes
+          Pres,      \* subset of {"none", "qrow", "qindex"}: reads offered inside the statement callback
+                     \* of a write, before the statement ("none": a write without such a read)
           Gap,       \* safety gap between index and primary entry (5 s)
           Ladder,    \* retry delays in seconds, e.g. <<1, 5, 60, 300, 3600>>
           Jits,      \* subset of {"lo", "mid", "hi"}: jitter choices explored
@@ -87,6 +96,7 @@ Eff(opt, def) == IF opt.set /\ opt.v > 0 THEN opt.v ELSE def
 ASSUME /\ DefE >= 1 /\ DefNF >= 1
        /\ \A c \in Cfgs : c.e.set \in BOOLEAN /\ c.nf.set \in BOOLEAN /\ c.e.v \in Int /\ c.nf.v \in Int
        /\ Ctxs # {} /\ Ctxs \subseteq {"bg", "cancel", "deadline"}
+       /\ Pres # {} /\ Pres \subseteq {"none", "qrow", "qindex"}
        /\ \A r \in 1..(Len(Ladder) - 1) : Ladder[r] < Ladder[r + 1]     \* "increasing delays"
        /\ Len(Ladder) >= 1 /\ Ladder[1] >= 1
 
@@ -182,12 +192,23 @@ Affected(st, i, new) ==
   {PK(i)} \cup (IF st.db[i] # NoRow THEN {IK(st.db[i].name)} ELSE {})
           \cup (IF new # NoRow THEN {IK(new.name)} ELSE {})
 
-\* Exec: write the database, then remove the affected keys (cx: the caller's context, see above)
-ExecF(st, i, new, cx) ==
+\* a read descriptor [op |-> "qrow", id |-> i] / [op |-> "qindex", name |-> n] / [op |-> "none"]
+NoRead(st) == [s |-> st, res |-> "none", row |-> NoRowOut, qp |-> 0, qi |-> 0, loose |-> FALSE, sets |-> {}]
+ReadF(st, p) == CASE p.op = "qrow"   -> QueryRowF(st, p.id)
+                  [] p.op = "qindex" -> QueryIndexF(st, p.name)
+                  [] p.op = "none"   -> NoRead(st)
+
+\* Exec: [the read `pre`, inside the statement callback and before the statement;] write the
+\* database, then remove the affected keys (cx: the caller's context, see above).  The step's
+\* database callbacks and stored entries are those of the inner read.
+ExecF(st, i, new, cx, pre) ==
   LET ks == Affected(st, i, new)
-      r  == DelKeysF([st EXCEPT !.db[i] = new], ks)
-  IN [s |-> r.s, op |-> IF new = NoRow THEN "delete" ELSE "put", cx |-> cx, id |-> i, name |-> new.name, data |-> new.data,
-      keys |-> ks, res |-> "ok", row |-> NoRowOut, qp |-> 0, qi |-> 0, loose |-> FALSE, sets |-> {}, dels |-> r.dels]
+  IN \* (bound through singleton sets: evaluated once)
+     CHOOSE x \in { [s |-> r.s, op |-> IF new = NoRow THEN "delete" ELSE "put", cx |-> cx, id |-> i,
+                     name |-> new.name, data |-> new.data, keys |-> ks, res |-> "ok", row |-> NoRowOut,
+                     qp |-> r0.qp, qi |-> r0.qi, loose |-> FALSE, sets |-> r0.sets, dels |-> r.dels,
+                     pre |-> pre @@ [res |-> r0.res, row |-> r0.row, qp |-> r0.qp, qi |-> r0.qi, loose |-> r0.loose]]
+                    : r0 \in {ReadF(st, pre)}, r \in {DelKeysF([ReadF(st, pre).s EXCEPT !.db[i] = new], ks)} } : TRUE
 
 \* SetCache(PK(i), current row of i)
 SetCacheF(st, i) ==
@@ -241,11 +262,17 @@ ValidPut(st, i, r) == /\ r # st.db[i]
                       /\ \A j \in Ids \ {i} : st.db[j].name # r.name
 
 \* operation descriptors offered in a state (small records), and the step each one denotes
+PreReads ==
+       (IF "none" \in Pres THEN {[op |-> "none"]} ELSE {})
+  \cup (IF "qrow" \in Pres THEN {[op |-> "qrow", id |-> i] : i \in Ids} ELSE {})
+  \cup (IF "qindex" \in Pres THEN {[op |-> "qindex", name |-> n] : n \in Names} ELSE {})
+
 OpsOf(st) ==
        {[op |-> "qrow", id |-> i] : i \in Ids}
   \cup {[op |-> "qindex", name |-> n] : n \in Names}
-  \cup UNION {{[op |-> "put", id |-> i, row |-> r, cx |-> c] : r \in {x \in NewRows : ValidPut(st, i, x)}, c \in Ctxs} : i \in Ids}
-  \cup {[op |-> "delete", id |-> i, cx |-> c] : i \in {x \in Ids : st.db[x] # NoRow}, c \in Ctxs}
+  \cup UNION {{[op |-> "put", id |-> i, row |-> r, cx |-> c, pre |-> p] :
+                  r \in {x \in NewRows : ValidPut(st, i, x)}, c \in Ctxs, p \in PreReads} : i \in Ids}
+  \cup {[op |-> "delete", id |-> i, cx |-> c, pre |-> p] : i \in {x \in Ids : st.db[x] # NoRow}, c \in Ctxs, p \in PreReads}
   \cup {[op |-> "delcache", k |-> k, cx |-> c] : k \in Keys, c \in Ctxs}
   \cup {[op |-> "setcache", id |-> i] : i \in {x \in Ids : st.db[x] # NoRow}}
   \cup {[op |-> "adv", n |-> n] : n \in Adv}
@@ -254,8 +281,8 @@ OpsOf(st) ==
 StepOf(st, o) ==
   CASE o.op = "qrow"     -> QueryRowF(st, o.id)
     [] o.op = "qindex"   -> QueryIndexF(st, o.name)
-    [] o.op = "put"      -> ExecF(st, o.id, o.row, o.cx)
-    [] o.op = "delete"   -> ExecF(st, o.id, NoRow, o.cx)
+    [] o.op = "put"      -> ExecF(st, o.id, o.row, o.cx, o.pre)
+    [] o.op = "delete"   -> ExecF(st, o.id, NoRow, o.cx, o.pre)
     [] o.op = "delcache" -> DelCacheF(st, {o.k}, o.cx)
     [] o.op = "setcache" -> SetCacheF(st, o.id)
     [] o.op = "adv"      -> AdvanceF(st, o.n)
@@ -299,13 +326,19 @@ TruthP(db, i) == IF db[i] = NoRow THEN [res |-> "nf", row |-> NoRowOut] ELSE [re
 TruthI(db, n) == IF RowByName(db, n) = {} THEN [res |-> "nf", row |-> NoRowOut]
                  ELSE LET i == CHOOSE x \in RowByName(db, n) : TRUE IN [res |-> "row", row |-> RowOut(i, db[i])]
 
+\* the reads observed in a step: the step itself, or the read inside a write's statement callback
+\* (it runs before the statement: the database it must agree with is that of the state before)
+ReadsIn(o) == IF o.op \in {"qrow", "qindex"} THEN {o}
+              ELSE IF o.op \in {"put", "delete"} /\ o.pre.op # "none" THEN {o.pre} ELSE {}
+
 \* every read that does not consult a dirty key returns the database's current row (or
 \* not-found), unless the cache failed
 Coherent ==
-  [][/\ (out'.op = "qrow" /\ ~out'.loose /\ out'.res # "cacheerr") =>
-            [res |-> out'.res, row |-> out'.row] = TruthP(s.db, out'.id)
-     /\ (out'.op = "qindex" /\ ~out'.loose /\ out'.res # "cacheerr") =>
-            [res |-> out'.res, row |-> out'.row] = TruthI(s.db, out'.name)]_vars
+  [][\A x \in ReadsIn(out') :
+       /\ (x.op = "qrow" /\ ~x.loose /\ x.res # "cacheerr") =>
+              [res |-> x.res, row |-> x.row] = TruthP(s.db, x.id)
+       /\ (x.op = "qindex" /\ ~x.loose /\ x.res # "cacheerr") =>
+              [res |-> x.res, row |-> x.row] = TruthI(s.db, x.name)]_vars
 
 \* coherent cache: outside dirty keys the cache never holds anything but the truth
 CacheTruth ==
@@ -320,16 +353,18 @@ CacheTruth ==
 
 \* a value or a placeholder in the cache shields the database
 Shield ==
-  [][/\ (out'.op = "qrow" /\ s.up[Place[PK(out'.id)]] /\ s.cache[PK(out'.id)].kind # "none")
-          => out'.qp = 0 /\ out'.qi = 0
-     /\ (out'.op = "qindex" /\ s.up[Place[IK(out'.name)]] /\ s.cache[IK(out'.name)].kind # "none")
-          => out'.qi = 0]_vars
+  [][\A x \in ReadsIn(out') :
+       /\ (x.op = "qrow" /\ s.up[Place[PK(x.id)]] /\ s.cache[PK(x.id)].kind # "none")
+            => x.qp = 0 /\ x.qi = 0
+       /\ (x.op = "qindex" /\ s.up[Place[IK(x.name)]] /\ s.cache[IK(x.name)].kind # "none")
+            => x.qi = 0]_vars
 
 \* a cache failure is returned, the database is not asked instead
 NoFallThrough ==
-  [][/\ (out'.op = "qrow" /\ ~s.up[Place[PK(out'.id)]]) => out'.res = "cacheerr" /\ out'.qp = 0 /\ out'.qi = 0
-     /\ (out'.op = "qindex" /\ ~s.up[Place[IK(out'.name)]]) => out'.res = "cacheerr" /\ out'.qp = 0 /\ out'.qi = 0
-     /\ (out'.res = "cacheerr" /\ out'.op \in {"qrow", "qindex"}) => out'.qp = 0]_vars
+  [][\A x \in ReadsIn(out') :
+       /\ (x.op = "qrow" /\ ~s.up[Place[PK(x.id)]]) => x.res = "cacheerr" /\ x.qp = 0 /\ x.qi = 0
+       /\ (x.op = "qindex" /\ ~s.up[Place[IK(x.name)]]) => x.res = "cacheerr" /\ x.qp = 0 /\ x.qi = 0
+       /\ x.res = "cacheerr" => x.qp = 0]_vars
 
 \* stored TTLs: configured expiry +-5 % (plus the safety gap for the primary entry written by an index read);
 \* whatever the configuration, an entry is never stored without an expiry
